@@ -1,7 +1,13 @@
 package c11
 
 import (
+	"fmt"
 	"strconv"
+	"testing"
+
+	"pgregory.net/rapid"
+
+	"github.com/lindb/lindb/verifharness/sim/ev"
 )
 
 // bucketName is metric.BucketNameOfHistogramExplicitBound (reserved field names of histogram buckets).
@@ -29,3 +35,171 @@ func (e *env) addHist(md metricDef, r rowSpec, gen int) {
 		}
 	}
 }
+
+// histFields lists the fields a compound field writes (name, type), buckets with a zero count excluded.
+func histFields(h *histSpec) []fieldDef {
+	out := []fieldDef{{"HistogramMin", tMin}, {"HistogramMax", tMax}, {"HistogramSum", tSum}, {"HistogramCount", tSum}}
+	bounds := append(append([]float64(nil), h.Bounds...), inf)
+	for i, v := range h.Values {
+		if v > 0 {
+			out = append(out, fieldDef{bucketName(bounds[i]), tHist})
+		}
+	}
+	return out
+}
+
+func genHist(t *rapid.T, bounds []float64) *histSpec {
+	nn := func(label string) float64 { return float64(rapid.IntRange(0, 1<<12).Draw(t, label)) / 8 }
+	h := &histSpec{Min: nn("hmin"), Max: nn("hmax"), Sum: nn("hsum"), Count: nn("hcount"), Bounds: bounds}
+	for i := 0; i <= len(bounds); i++ {
+		v := 0.0
+		if rapid.IntRange(0, 3).Draw(t, "bucketNonZero") > 0 {
+			v = float64(rapid.IntRange(1, 64).Draw(t, "bucket")) / 8
+		}
+		h.Values = append(h.Values, v)
+	}
+	return h
+}
+
+// TestQueryModelHistogram: the separately counted class of compound (histogram) fields: the same
+// histories and oracle as TestQueryModel over metrics whose rows carry a histogram (plus, sometimes,
+// one simple field); statements select HistogramSum/Count/Min/Max and bucket fields (plain and the
+// functions series/field/type.go allows; quantile is not generated).
+func TestQueryModelHistogram(t *testing.T) {
+	rapid.Check(t, func(t *rapid.T) {
+		sc := genSchema(t)
+		bounds := rapid.SampledFrom([][]float64{{1, 5}, {1, 5, 20}, {2, 4, 8, 16}}).Draw(t, "bounds")
+		// metrics: histogram only, or histogram + one simple field
+		for i := range sc.Metrics {
+			if len(sc.Metrics[i].Fields) > 1 {
+				sc.Metrics[i].Fields = sc.Metrics[i].Fields[:rapid.IntRange(0, 1).Draw(t, "simpleFields")]
+			}
+		}
+		// query-side view of the metrics: the derived fields
+		qsc := sc
+		qsc.Metrics = nil
+		for _, md := range sc.Metrics {
+			q := md
+			q.Fields = append([]fieldDef(nil), md.Fields...)
+			q.Fields = append(q.Fields, fieldDef{"HistogramMin", tMin}, fieldDef{"HistogramMax", tMax}, fieldDef{"HistogramSum", tSum}, fieldDef{"HistogramCount", tSum})
+			// the +Inf bucket cannot be named in a statement (a quoted identifier keeps its quotes and
+			// is rejected as an unknown field), it is only reachable through quantile()
+			for _, b := range bounds {
+				q.Fields = append(q.Fields, fieldDef{bucketName(b), tHist})
+			}
+			qsc.Metrics = append(qsc.Metrics, q)
+		}
+		wt := newWindowTracker(sc.S)
+		written := map[string]map[string]bool{}
+		curFields := map[int64]map[string]map[string]bool{}
+		fileCount := map[int64]int{}
+		var ops []opSpec
+		write := func(max int) {
+			n := rapid.IntRange(1, max).Draw(t, "nRows")
+			var rows []rowSpec
+			for i := 0; i < n || len(rows) == 0; i++ {
+				mi := rapid.IntRange(0, len(sc.Metrics)-1).Draw(t, "metric")
+				md := sc.Metrics[mi]
+				r := rowSpec{M: mi, S: rapid.IntRange(0, len(md.Series)-1).Draw(t, "series"), TS: genTS(t, sc), Hist: genHist(t, bounds)}
+				for _, fd := range md.Fields {
+					if rapid.Bool().Draw(t, "hasSimple") {
+						r.Vals = append(r.Vals, fieldVal{Field: fd.Name, Val: genValue(t, "v")})
+					}
+				}
+				names := histFields(r.Hist)
+				for _, fv := range r.Vals {
+					names = append(names, fieldDef{Name: fv.Field})
+				}
+				if ev.Known(sigWindowEnd) {
+					ok := true
+					probe := *wt // admit mutates: check all fields first on a copy of the windows touched
+					_ = probe
+					for _, fd := range names {
+						if !wt.wouldAdmit(familyOf(r.TS), md.Name, r.S, fd.Name, r.TS) {
+							ok = false
+						}
+					}
+					if !ok {
+						continue
+					}
+					for _, fd := range names {
+						wt.admit(familyOf(r.TS), md.Name, r.S, fd.Name, r.TS)
+					}
+				}
+				if written[md.Name] == nil {
+					written[md.Name] = map[string]bool{}
+				}
+				fam := familyOf(r.TS)
+				if curFields[fam] == nil {
+					curFields[fam] = map[string]map[string]bool{}
+				}
+				if curFields[fam][md.Name] == nil {
+					curFields[fam][md.Name] = map[string]bool{}
+				}
+				for _, fd := range names {
+					written[md.Name][fd.Name] = true
+					curFields[fam][md.Name][fd.Name] = true
+				}
+				rows = append(rows, r)
+			}
+			ops = append(ops, opSpec{Kind: "write", Rows: rows})
+		}
+		flushedFam := func(f int64) {
+			if len(curFields[f]) > 0 {
+				fileCount[f]++
+			}
+			delete(curFields, f)
+			wt.flushed(f)
+		}
+		write(6)
+		n := rapid.IntRange(2, 10).Draw(t, "nOps")
+		hasReopen := false
+		for i := 0; i < n; i++ {
+			switch k := rapid.IntRange(0, 9).Draw(t, "opKind"); {
+			case k <= 3:
+				write(5)
+			case k == 4:
+				ops = append(ops, opSpec{Kind: "flushDB"})
+				for _, f := range sc.Fams {
+					flushedFam(f)
+				}
+			case k <= 6:
+				fi := rapid.IntRange(0, len(sc.Fams)-1).Draw(t, "flushFam")
+				ops = append(ops, opSpec{Kind: "flushFamily", Fam: fi})
+				flushedFam(sc.Fams[fi])
+			case k == 7:
+				for i, f := range sc.Fams {
+					if fileCount[f] >= 2 {
+						ops = append(ops, opSpec{Kind: "compact", Fam: i})
+						fileCount[f] = 1
+						break
+					}
+				}
+			case k == 8:
+				ops = append(ops, opSpec{Kind: "reopen"})
+				hasReopen = true
+				for _, f := range sc.Fams {
+					flushedFam(f)
+				}
+			default:
+				q := genQuery(t, qsc, written)
+				ops = append(ops, opSpec{Kind: "query", Query: &q, SQL: q.sql()})
+			}
+		}
+		if hasReopen && ev.Known(sigFlushWedged) {
+			for i := range ops {
+				if ops[i].Kind == "flushDB" {
+					ops[i].Kind = "flushFamilies"
+				}
+			}
+		}
+		for i := 0; i < rapid.IntRange(1, 3).Draw(t, "nFinalQueries"); i++ {
+			q := genQuery(t, qsc, written)
+			ops = append(ops, opSpec{Kind: "query", Query: &q, SQL: q.sql()})
+		}
+		classes, nt := runHistory(t, sc, ops)
+		ev.Case("TestQueryModelHistogram", canon(sc, ops), nt, classes, map[string]any{"schema": sc, "ops": ops})
+	})
+}
+
+var _ = fmt.Sprintf
